@@ -820,6 +820,9 @@ var c03Assumptions = []string{
 func TestVerif_C03_Exchange(t *testing.T) {
 	r := kit.Start(t, "C03")
 	defer r.Finish()
+	if e2eNotReplayed(r) {
+		return
+	}
 	r.Rule(c03Rule)
 	for _, a := range c03Assumptions {
 		r.Assume(a)
@@ -913,6 +916,9 @@ func c03Requires(r *kit.Run) {
 func TestVerif_C03_Concurrent(t *testing.T) {
 	r := kit.Start(t, "C03")
 	defer r.Finish()
+	if e2eNotReplayed(r) {
+		return
+	}
 	r.Rule(c03Rule + " || concurrent part: 8 clients x one gateway, each client its own kept-alive connection")
 	be, err := e2eNewBackend()
 	if err != nil {
